@@ -80,6 +80,18 @@ def modules():
     f.add_state_order(c2, c0)
     f.set_outputs(c2[0], c2[1])
     out.append(("row-poly-calls", m.hugr))
+
+    # metadata entries whose values are falsy JSON values; polymorphic functions whose copyable type parameters come after other parameters
+    m = Module()
+    A, C = tys.TypeBound.Any, tys.TypeBound.Copyable
+    ps = [tys.TypeTypeParam(A), tys.TypeTypeParam(C), tys.BoundedNatParam(), tys.TypeTypeParam(C), tys.TypeTypeParam(A)]
+    decl = m.declare_function("poly_mixed", tys.PolyFuncType(ps, tys.FunctionType([tys.Variable(1, C)], [tys.Variable(3, C)])))
+    f = m.define_function("falsy_meta", [tys.Bool], type_params=[tys.TypeTypeParam(A), tys.TypeTypeParam(C)])
+    n = f.add_op(Not, f.inputs()[0], metadata={"zero": 0, "false": False, "empty": "", "list": [], "dict": {}, "null": None, "zf": 0.0})
+    f.set_outputs(n)
+    m.hugr[decl].metadata["flag"] = False
+    m.hugr[f.parent_node].metadata["count"] = 0
+    out.append(("falsy-metadata-and-mixed-type-params", m.hugr))
     return out
 
 
